@@ -42,12 +42,133 @@ def trimCommon : List Str → List Str → List Str × List Str × List Str
     else ([], a :: a2 :: as, b :: b2 :: bs)
   | as, bs => ([], as, bs)
 
-def natDigits (n : Nat) : Str := (toString n).toList
+/-- decimal digits of `n` (`%d`), most significant first; `fuel` bounds the number of digits -/
+def natDigitsAux : Nat → Nat → Str → Str
+  | 0, _, acc => acc
+  | fuel + 1, n, acc =>
+    let d := Char.ofNat (48 + n % 10)
+    if n < 10 then d :: acc else natDigitsAux fuel (n / 10) (d :: acc)
+
+def natDigits (n : Nat) : Str := natDigitsAux (n + 1) n []
 
 /-- `Edge.AbsID` from the ID chains of its endpoints -/
 def edgeAbsID (src dst : List Str) (srcArrow dstArrow : Bool) (index : Nat) : Str :=
   let r := trimCommon src dst
   let common := if r.1.isEmpty then [] else joinDot r.1 ++ ['.']
   common ++ '(' :: joinDot r.2.1 ++ ' ' :: arrowString srcArrow dstArrow ++ ' ' :: joinDot r.2.2 ++ ")[".toList ++ natDigits index ++ [']']
+
+/-! ## reading a connection ID back: `d2parser.ParseMapKey` restricted to `[common.](src arrow dst)[index]`
+
+  parseMapKey → parseKey (container) → parseEdgeGroup (`p.inEdgeGroup = true`) → parseKey (source) → parseEdges /
+  parseEdge (one connection) → parseKey (destination) → `)` → parseEdgeIndex.  Anything else ParseMapKey accepts
+  (filters, several connections, `*` arrowheads or index, an edge key, a value, line continuations) is
+  answered with `unsupported`. -/
+
+inductive EdgeRes where
+  | ok (common src dst : List Seg) (srcArrow dstArrow : Bool) (index : Nat) (rest : Str)
+  | err
+  | unsupported
+  deriving DecidableEq, Repr
+
+/-- `parseEdge` after the first rune of the arrow was consumed: more `-`, then `>` or nothing;
+    answers (dstArrow, rest) -/
+def parseArrowTail : Str → Option (Option (Bool × Str))
+  | [] => some none                                  -- "unterminated connection": error
+  | c :: rest =>
+    if c == '>' then some (some (true, rest))
+    else if c == '*' then none                        -- outside the model
+    else if c == '\\' then none
+    else if c == '-' then parseArrowTail rest
+    else some (some (false, c :: rest))
+
+def isAsciiDigit (c : Char) : Bool := '0' ≤ c && c ≤ '9'
+
+/-- digits of `parseEdgeIndex` (spaces between them are skipped by `peekNotSpace`); answers the value and the
+    input from `]` on -/
+def indexDigits : Str → Nat → Option (Option (Nat × Str))
+  | [], _ => some none                                -- "unterminated edge index"
+  | c :: rest, v =>
+    if isSpace c then (if c == '\n' then some none else indexDigits rest v)
+    else if c == ']' then some (some (v, c :: rest))
+    else if isAsciiDigit c then indexDigits rest (v * 10 + (c.toNat - 48))
+    else if c.toNat < 128 then some none              -- "unexpected character in edge index"
+    else none                                         -- non-ASCII digits: outside the model
+
+def keyResParts : KeyRes → Option (Option (List Seg × Str))
+  | .ok path rest => some (some (path, rest))
+  | .empty => some none
+  | .err => none
+  | .unsupported => none
+
+/-- the edge group after `(` -/
+def parseEdgeGroup (common : List Seg) (inp : Str) : EdgeRes :=
+  match parseKeyLoop true (inp.length + 1) inp [] with
+  | .unsupported => .unsupported
+  | .err => .err
+  | .empty => .unsupported          -- no source: an error or not a connection; outside the model
+  | .ok src rest1 =>
+    match skipSpacesNL rest1 with
+    | none => .unsupported
+    | some (a, rest2) =>
+      if a == '*' then .unsupported
+      else if a != '<' && a != '-' then .unsupported
+      else
+        match parseArrowTail rest2 with
+        | none => .unsupported
+        | some none => .err
+        | some (some (dstArrow, rest3)) =>
+          match parseKeyLoop true (rest3.length + 1) rest3 [] with
+          | .unsupported => .unsupported
+          | .err => .err
+          | .empty => .err             -- "connection missing destination"
+          | .ok dst rest4 =>
+            match skipSpacesNL rest4 with
+            | none => .unsupported
+            | some (c, rest5) =>
+              if c == '<' || c == '-' || c == '*' then .unsupported     -- a second connection
+              else if c != ')' then .err                                 -- "edge groups must be terminated with )"
+              else
+                match skipSpacesNL rest5 with
+                | none => .unsupported
+                | some (b, rest6) =>
+                  if b != '[' then .unsupported
+                  else
+                    match skipSpacesNL rest6 with
+                    | none => .unsupported
+                    | some (d, rest7) =>
+                      if !isAsciiDigit d then .unsupported
+                      else
+                        match indexDigits rest7 (d.toNat - 48) with
+                        | none => .unsupported
+                        | some none => .err
+                        | some (some (idx, rest8)) =>
+                          match rest8 with
+                          | ']' :: rest9 =>
+                            match skipSpacesNL rest9 with
+                            | none => .ok common src dst (a == '<') dstArrow idx rest9
+                            | some (e, _) =>
+                              if e == '.' || e == ':' || e == '{' then .unsupported
+                              else .ok common src dst (a == '<') dstArrow idx rest9
+                          | _ => .err
+
+/-- `d2parser.ParseMapKey` on a connection ID -/
+def parseEdgeID (inp : Str) : EdgeRes :=
+  match inp with
+  | [] => .unsupported
+  | c :: rest =>
+    if c == '&' || (c == '!' && rest.head? == some '&') then .unsupported      -- filters
+    else if c == '(' then parseEdgeGroup [] rest
+    else
+      match parseKey inp with
+      | .unsupported => .unsupported
+      | .err => .err
+      | .empty =>
+        match skipSpacesNL inp with
+        | some ('(', rest') => parseEdgeGroup [] rest'
+        | _ => .unsupported
+      | .ok common rest1 =>
+        match skipSpacesNL rest1 with
+        | some ('(', rest') => parseEdgeGroup common rest'
+        | _ => .unsupported
 
 end D2V.Quote
